@@ -4,7 +4,7 @@
  * "NULL or fresh". Gap lists bounded: at most one gap per size class on entry (quick), the gap pool holds at most one spare record. */
 #include "spec/specdefs.h"
 #include "spec/errors.h"
-#ifdef HAVE_STRUCT_ConstPool
+#if defined(HAVE_STRUCT_ConstPool) && defined(HAVE_STRUCT_ConstPool_Gap) && defined(HAVE_STRUCT_ConstPool_Node)
 #ifndef VERIF_MAXCONST
 #define VERIF_MAXCONST 64     /* largest constant size explored (quick tier: 16, which still exercises the shared sub-constant loop) */
 #endif
@@ -105,4 +105,21 @@ static inline int c_add_post(const struct ConstPool* p, uint64_t size, uint64_t 
   __CPROVER_assigns(self->_gaps[6] != NULL: __CPROVER_object_whole(self->_gaps[6])) \
   __CPROVER_assigns(self->_gap_pool != NULL: __CPROVER_object_whole(self->_gap_pool)) \
   __CPROVER_ensures(c_add_post(self, size, *offset_out._val, __CPROVER_return_value) == 0)
+#endif
+
+#ifdef HAVE_STRUCT_ConstPool
+/* ConstPool::reset (property C16): whatever the pool held, the state afterwards is the state of a freshly constructed pool */
+static inline int c_pool_is_fresh(const struct ConstPool* p) {
+  for (unsigned i = 0; i < 7; i++) {
+    if (p->_tree[i]._tree._root != NULL || p->_tree[i]._size != 0) return 1;
+    if (p->_tree[i]._data_size != ((uint64_t)1 << i)) return 2;
+    if (p->_gaps[i] != NULL) return 3;
+  }
+  return (p->_gap_pool == NULL && p->_size == 0 && p->_alignment == 0 && p->_min_item_size == 0) ? 0 : 4;
+}
+#define CONTRACT_ConstPool_reset \
+  __CPROVER_requires(__CPROVER_is_fresh(self, sizeof(*self))) \
+  __CPROVER_assigns(*self) \
+  __CPROVER_ensures(c_pool_is_fresh(self) == 0) \
+  __CPROVER_ensures(self->_arena == __CPROVER_old(self->_arena))
 #endif
